@@ -8,6 +8,16 @@ VERIF = os.path.dirname(os.path.dirname(os.path.abspath(__file__)))
 BASELINE_OFF = "/verif/tool/baseline.sh"
 
 CLAIMED = {
+    "C17": dict(
+        technique="static analysis: call-graph stratification of the recursive-descent UDQ parser, token-guard and associativity shape rules, and agreement of the name->token, name->implementation and implementation tables (clang AST)",
+        text="Decides operator precedence and associativity as encoded in the parser's structure (each parse level calls only the next-tighter level or itself; parentheses restart at the loosest level; each level consumes exactly its own operator tokens; + - * / left-nested, ^ and comparisons right-recursive), consistency of the token classes, that every documented function/operator name is tokenised, registered with the right class and bound to the implementation of that name, that each implementation applies the operator or library function its name says, and operator pairing in UDQScalar/UDQSet arithmetic. Not decided: set arithmetic on concrete values with undefined elements, ASSIGN/DEFINE/UPDATE ordering over report steps.",
+        note="Trusted: the documented precedence (property statement) and the documented meaning of each name (NAME_IMPL/NAME_TOKEN in rules/C17.py).",
+        design="DESIGN.md §4 C17"),
+    "C18": dict(
+        technique="static analysis: stratification and guards of the ACTIONX condition parser, switch/table pairing rules, a decision table of ActionX::ready extracted from its AST over five opaque atomic predicates, and who-may-apply rules on the call sites of Schedule::applyAction",
+        text="Decides: AND binds tighter than OR and parentheses re-enter at OR (call-graph stratification), each level consumes its own token and builds a node of that type, trailing tokens are rejected, token<->operator pairing in scalarComparisonHolds/isComparisonOperator/tokenizer, OR=union with neutral false and AND=intersection with neutral true down to std::set_union/set_intersection, the complete 32-row decision table of ActionX::ready, run bookkeeping in State, and that ACTIONX objects are applied only when drawn from Actions::pending and that the run is then recorded. Not decided: evaluation against concrete summary states, wildcard matching, date arithmetic.",
+        note="Trusted: documented ACTIONX condition syntax frozen in rules/C18.py. Python-driven and by-name application of actions are outside the triggering limits and are not subject to the gate rule.",
+        design="DESIGN.md §4 C18"),
     "C02": dict(
         technique="static analysis: table rules over the clang AST of UnitSystem.cpp/Units.hpp (reciprocal tables, dimensional formulas, compile-time constants vs an independent physical table, normal form of the conversion formulas) plus a scan of every compiled-in keyword's dimension strings",
         text="Decides, for the conversion factors as written: to_/from_ tables of all five systems are mutual reciprocals entry by entry (230 pairs), every measure has the same frozen dimensional formula in METRIC/FIELD/LAB/PVT-M, offsets exist only for temperature, init<SYS> wires tables and registers the same 31 dimension names with the system's own constants, every one of the 163 constants equals its physical definition (1e-12), to_si/from_si/Dimension::convert* have the affine normal forms that make them inverse, composite dimensions are product/quotient, every dimension string of the 1184 compiled-in keywords resolves in all four systems, and the output conversions are mirror images. Not decided: that each keyword item carries the physically right dimension; end-to-end equality of SI values between two decks.",
